@@ -106,7 +106,7 @@ CHECKS['C01'] = {
     'assumptions': ['zero-length raw items are built only through AddFlat(ByteBuffer) (AddData documents that 0 bytes are rejected)'],
     'targets': [
         {'name': 'c01_roundtrip', 'src': ['harness/C01_roundtrip.cpp'], 'quick_n': 1000000, 'thorough_n': 8000000, 'maxlen': 600, 'min_nontrivial': 100000,
-         'class_floors': {'case_field_crossed_inline_array_boundary': 50000, 'case_nesting_ge_2': 5000, 'case_with_pointer_or_tag_field': 3000, 'case_equality_asserted': 50000, 'case_with_nan': 20000, 'case_with_a_field_emptied_through_a_sharing_message': 5000}},
+         'class_floors': {'case_field_crossed_inline_array_boundary': 50000, 'case_nesting_ge_2': 5000, 'case_with_pointer_or_tag_field': 3000, 'case_equality_asserted': 50000, 'case_with_nan': 20000, 'case_with_a_field_emptied_through_a_sharing_message': 5000, 'case_copy_kept_while_the_original_was_modified': 8000, 'case_copy_modified_original_rechecked': 10000, 'case_field_swapped_with_another_message': 1500}},
     ],
 }
 
@@ -122,7 +122,7 @@ CHECKS['C02'] = {
         {'name': 'c02_parsers', 'src': ['harness/C02_parsers.cpp'], 'ccodecs': True, 'meter': True, 'quick_n': 1200000, 'thorough_n': 9600000, 'maxlen': 500, 'min_nontrivial': 50000, 'timeout_is_violation': True, 'budget': 8,
          'class_floors': {'entry_cpp': 50000, 'entry_mini': 50000, 'entry_micro': 50000, 'entry_templated': 30000, 'reached_field_parsing': 100000, 'cpp_accepted': 5000, 'cpp_rejected': 20000}},
         {'name': 'c02_gateways', 'src': ['harness/C02_gateways.cpp'], 'ccodecs': True, 'quick_n': 1500000, 'thorough_n': 12000000, 'maxlen': 700, 'min_nontrivial': 30000, 'timeout_is_violation': True, 'budget': 20,
-         'class_floors': {'binary_unlimited': 3000, 'binary_limit_1MiB': 3000, 'templating': 3000, 'text': 3000, 'slip': 3000, 'websocket_server': 3000, 'websocket_client': 3000, 'packet_tunnel': 3000, 'mini_packet_tunnel': 3000, 'mini_c_gateway': 3000, 'micro_c_gateway': 3000, 'reuse_after_reset_checked': 30000, 'case_stream_of_2048_bytes_or_more': 20000, 'binary_packet_mode': 20000, 'case_valid_datagram_after_a_malformed_one': 5000}},
+         'class_floors': {'binary_unlimited': 3000, 'binary_limit_1MiB': 3000, 'templating': 3000, 'text': 3000, 'slip': 3000, 'websocket_server': 3000, 'websocket_client': 3000, 'packet_tunnel': 3000, 'mini_packet_tunnel': 3000, 'mini_c_gateway': 3000, 'micro_c_gateway': 3000, 'reuse_after_reset_checked': 30000, 'case_stream_of_2048_bytes_or_more': 20000, 'binary_packet_mode': 20000, 'case_valid_datagram_after_a_malformed_one': 5000, 'frame_with_lying_last_field_beyond_the_scratch_buffer': 20000, 'case_tunnel_size_gate_with_oversized_message_after_the_first': 5000}},
     ],
 }
 
@@ -139,7 +139,7 @@ CHECKS['C03'] = {
     'assumptions': ['text lines exclude NUL, CR and LF bytes (the text gateway cannot carry them inside a line)'],
     'targets': [
         {'name': 'c03_gateways', 'src': ['harness/C03_gateways.cpp'], 'ccodecs': True, 'quick_n': 600000, 'thorough_n': 4800000, 'maxlen': 1500, 'min_nontrivial': 30000, 'budget': 60,
-         'class_floors': {'binary_zlib': 10000, 'templating': 5000, 'text': 3000, 'slip': 1500, 'raw': 1500, 'raw_min_chunk': 1500, 'websocket': 5000, 'mini_gateway': 1500, 'micro_gateway': 1500, 'binary_encoding_switches': 3000, 'binary_zlib_independent_streams': 1500, 'binary_300KiB': 1500, 'message_sized_to_the_scratch_buffer_boundary': 5000}},
+         'class_floors': {'binary_zlib': 10000, 'templating': 5000, 'text': 3000, 'slip': 1500, 'raw': 1500, 'raw_min_chunk': 1500, 'websocket': 5000, 'mini_gateway': 1500, 'micro_gateway': 1500, 'binary_encoding_switches': 3000, 'binary_zlib_independent_streams': 1500, 'binary_300KiB': 1500, 'message_sized_to_the_scratch_buffer_boundary': 5000, 'case_micro_sender_prepared_a_message_behind_pending_output': 800}},
     ],
 }
 
@@ -368,7 +368,7 @@ CHECKS['C13'] = {
     'assumptions': [],
     'targets': [
         {'name': 'c13_index', 'src': ['harness/C04_mirror.cpp'], 'extra_flags': ['-DVF_C13=1'], 'quick_n': 60000, 'thorough_n': 480000, 'maxlen': 500, 'min_nontrivial': 3000, 'budget': 120,
-         'class_floors': {'case_with_reorder': 5000, 'case_with_armed_index_replay_compared': 3000, 'case_index_replayed_from_the_birth_of_its_node': 2000, 'case_index_replayed_from_an_empty_index_at_a_quiescent_point': 5000, 'case_with_subtree_clone_or_restore': 4000, 'case_index_of_a_cloned_or_restored_node_judged': 300}},
+         'class_floors': {'case_with_reorder': 5000, 'case_with_armed_index_replay_compared': 3000, 'case_index_replayed_from_the_birth_of_its_node': 2000, 'case_index_replayed_from_an_empty_index_at_a_quiescent_point': 5000, 'case_with_subtree_clone_or_restore': 4000, 'case_index_of_a_cloned_or_restored_node_judged': 300, 'case_with_superceding_set': 8000}},
     ],
 }
 
@@ -410,7 +410,7 @@ CHECKS['C06'] = {
     'assumptions': [],
     'targets': [
         {'name': 'c06_isolation', 'src': ['harness/C06_isolation.cpp'], 'quick_n': 40000, 'thorough_n': 320000, 'maxlen': 600, 'min_nontrivial': 5000, 'budget': 30,
-         'class_floors': {'mode_isolation': 10000, 'mode_cleanup': 10000, 'case_adversary_addressed_victim_subtree': 3000, 'case_cut_strictly_inside_pending_output': 3000, 'privileged_commands_bounced': 1000, 'case_leaver_dropped_subscriptions_while_muted': 3000, 'case_server_grants_ban_privileges_but_not_kick': 2000}},
+         'class_floors': {'mode_isolation': 10000, 'mode_cleanup': 10000, 'case_adversary_addressed_victim_subtree': 3000, 'case_cut_strictly_inside_pending_output': 3000, 'privileged_commands_bounced': 1000, 'case_leaver_dropped_subscriptions_while_muted': 3000, 'case_server_grants_ban_privileges_but_not_kick': 2000, 'case_adversary_used_a_path_that_begins_like_its_own_root': 1500}},
     ],
 }
 
